@@ -1332,7 +1332,12 @@ func (a *align) Mask(refseq string, start, length int, maskreplace string, nogap
 	}
 
 	var refchar uint8 = '.'
-	for i := start; i < (start+length) && i < a.Length(); i++ {
+	// end of the window, truncated at the end of the alignment (start+length may overflow)
+	end := a.Length()
+	if length < end-start {
+		end = start + length
+	}
+	for i := start; i < end; i++ {
 		if refseq != "" && noref {
 			refchar = refSequence.CharAt(i)
 		}
